@@ -51,6 +51,7 @@ def run(prog, chk):
                     "that no component reference ties to its layer (R09.11)"]
     chk.decided += ["the 'this is the default source' flag handed to the outline compiler is 'the source's index equals the instantiator's default source index': every other master, sparse layer or "
                     "stand-alone UFO alike, gets placeholder glyphs for component bases it lacks, so composites keep their components in every master (R09.12)"]
+    chk.decided += ["the decomposition helper draws every component it removes, whatever its transformation: what a master contributes does not depend on that master's own transform values (R09.13 = R15.1b)"]
     chk.not_decided += ["that cu2qu yields equal segment counts for all masters (fontTools)", "point compatibility of the output itself", "custom filters supplied by the caller"]
     chk.guard(r091, prog, chk)
     chk.guard(r092, prog, chk)
@@ -64,6 +65,8 @@ def run(prog, chk):
     chk.guard(check_master_isolation, prog, chk, "R09.10")
     chk.guard(r0911, prog, chk)
     chk.guard(r0912, prog, chk)
+    from .c15 import r151b
+    chk.guard(r151b, prog, chk, "R09.13")
     from .c08 import check_memo_decorators
     chk.guard(lambda prog_, chk_: (check_memo_decorators(prog_, chk_, "R09.8", only_modules=("ufo2ft.instantiator", "ufo2ft.filters", "ufo2ft.preProcessor")), None)[1], prog, chk)
 
@@ -581,6 +584,9 @@ def r0912(prog, chk):
 
 
 MUTANTS = [
+    M("components with a singular transformation are dropped instead of drawn (seeded C09k)", "ufo2ft/util.py", "decomposeCompositeGlyph",
+      "pen = DecomposingFilterPointPen(glyph.getPointPen(), glyphSet, reverseFlipped=reverseFlipped, include=include, decomposeNested=decomposeNested)",
+      "pen = DecomposingFilterPointPen(glyph.getPointPen(), glyphSet, reverseFlipped=reverseFlipped, include=include, decomposeNested=decomposeNested)\nfor component in list(glyph.components):\n    if component.transformation[0] * component.transformation[3] == component.transformation[1] * component.transformation[2]:\n        glyph.removeComponent(component)", rule="R09.13"),
     M("default-source flag keyed off the layer name (seeded C09j)", "ufo2ft/_compilers/baseCompiler.py", "BaseInterpolatableCompiler.compile",
       "self.compilingVFDefaultSource = i == default_idx", "self.compilingVFDefaultSource = layerName is None", rule="R09.12"),
     M("composite interpolated into every master that lacks it (seeded C09i)", "ufo2ft/filters/base.py", "BaseIFilter.ensureCompositeDefinedAtComponentLocations",
